@@ -13,7 +13,8 @@ DESIGN_REF = "DESIGN.md §9 C13, Appendix G, §12.C13"
 COQ_TARGETS = ["Properties/C13", "Pins/C13"]
 THEOREMS = [("PdfV.Properties.C13", n) for n in
             ["C13_per_thread_chain", "C13_completion", "C13_terminates", "C13_sequential_answer", "C13_answers_alone", "C13_full_refuted",
-             "C13_refuted_shared_chain", "C13_refuted_pop_assert", "C13_refuted_abort", "C13_cyclic_deadlock", "C13_chain_table"]]
+             "C13_refuted_shared_chain", "C13_refuted_pop_assert", "C13_refuted_abort", "C13_cyclic_deadlock", "C13_chain_table",
+             "C13_serving_cached_errors_refuted"]]
 ANCHORS = ["file.rs:StorageResolver"]
 MODES = ["schedule", "tschedule"]
 TRUSTED_BASE = ["coqc 8.16.1 kernel (vm_compute for witnesses and the table lemma; no native_compute)",
